@@ -1173,6 +1173,66 @@ pub fn c18_bend(listen: u8) -> Result<u64, Failure> {
     Ok(16384)
 }
 
+/// controller reset from every boundary-valued state: each of the five continuous controllers in {0, 1, 64, 127}, pitch
+/// bend in {raw 0, 8192, 16383, 5000}, both switches on/off (4^5 * 4 * 4 = 16384 states); after CC 121 every controller
+/// getter must equal that of a fresh receiver
+pub fn c18_reset_states(listen: u8) -> Result<u64, Failure> {
+    let fresh = observe(&MonoMidiReceiver::new(listen));
+    let vals = [0u8, 1, 64, 127];
+    let bends = [0u16, 8192, 16383, 5000];
+    let ccs = [1u8, 7, 71, 74, 5];
+    let mut n = 0u64;
+    for state in 0..(1024u32 * 16) {
+        let mut r = MonoMidiReceiver::new(listen);
+        let mut s = state;
+        let mut desc = vec![];
+        for c in ccs {
+            let v = vals[(s % 4) as usize];
+            s /= 4;
+            if v != 0 {
+                r.parse(0xB0 | listen);
+                r.parse(c);
+                r.parse(v);
+                desc.push((c, v));
+            }
+        }
+        let b = bends[(s % 4) as usize];
+        s /= 4;
+        r.parse(0xE0 | listen);
+        r.parse((b & 0x7F) as u8);
+        r.parse((b >> 7) as u8);
+        let (porta, sustain) = (s % 2 == 0, (s / 2) % 2 == 0);
+        r.parse(0xB0 | listen);
+        r.parse(65);
+        r.parse(if porta { 127 } else { 0 });
+        r.parse(64);
+        r.parse(if sustain { 127 } else { 0 });
+        r.parse(0xB0 | listen);
+        r.parse(121);
+        r.parse(0);
+        let o = observe(&r);
+        if cmp_fields(C18, &o, &fresh).is_some() {
+            return Err(Failure::new(
+                "C18.reset_from_any_state",
+                0,
+                format!(
+                    "listening on {}: controllers {:?}, pitch bend raw {}, portamento {}, sustain {}, then CC 121: [{}] instead of the power-on state [{}]",
+                    listen,
+                    desc,
+                    b,
+                    porta,
+                    sustain,
+                    obs_text(&o),
+                    obs_text(&fresh)
+                ),
+            )
+            .with(serde_json::json!({"listen": listen, "reset_state": state})));
+        }
+        n += 1;
+    }
+    Ok(n)
+}
+
 /// scaling along the value axis for the routed controllers (fresh receiver): value/127 exactly, strictly increasing
 pub fn c18_scaling(listen: u8) -> Result<(), Failure> {
     for (cc, idx) in [(1u8, 0usize), (7, 1), (71, 2), (74, 3), (5, 4)] {
